@@ -170,13 +170,51 @@ unsafe extern "C" fn native_cb(ctx: *const c_void, argv: *const *const Val, succ
 	let a = unsafe { &**argv };
 	let b = unsafe { &**argv.add(1) };
 	unsafe { *success = 1 };
+	// everything below goes through the C value API (extract_*, make_*, *_append, destroy)
+	use jsonnet::{val_extract as ex, val_make as mk, val_modify as md};
+	let describe = |v: &Val| -> String {
+		let p = ex::jsonnet_json_extract_string(vm, v);
+		if !p.is_null() {
+			let s = unsafe { CString::from_raw(p) };
+			return format!("s:{}", s.to_string_lossy());
+		}
+		let mut x = 0.0;
+		if ex::jsonnet_json_extract_number(vm, v, &mut x) == 1 {
+			return format!("n:{x}");
+		}
+		match ex::jsonnet_json_extract_bool(vm, v) {
+			0 => return "b:false".to_owned(),
+			1 => return "b:true".to_owned(),
+			_ => {}
+		}
+		if ex::jsonnet_json_extract_null(vm, v) == 1 {
+			"null".to_owned()
+		} else {
+			"other".to_owned()
+		}
+	};
+	let (da, db) = (describe(a), describe(b));
 	let (mut x, mut y) = (0.0, 0.0);
-	if jsonnet::val_extract::jsonnet_json_extract_number(vm, a, &mut x) == 1 && jsonnet::val_extract::jsonnet_json_extract_number(vm, b, &mut y) == 1 {
-		return jsonnet::val_make::jsonnet_json_make_number(vm, x + y);
+	let both_numbers = ex::jsonnet_json_extract_number(vm, a, &mut x) == 1 && ex::jsonnet_json_extract_number(vm, b, &mut y) == 1;
+	unsafe {
+		let obj = mk::jsonnet_json_make_object(vm);
+		let arr = mk::jsonnet_json_make_array(vm);
+		for d in [&da, &db] {
+			let c = CString::new(d.replace('\0', "")).expect("cstring");
+			let sv = mk::jsonnet_json_make_string(vm, c.as_ptr());
+			md::jsonnet_json_array_append(vm, &mut *arr, &*sv);
+			jsonnet::jsonnet_json_destroy(vm, Box::from_raw(sv));
+		}
+		md::jsonnet_json_object_append(vm, &mut *obj, c"args".as_ptr(), &*arr);
+		jsonnet::jsonnet_json_destroy(vm, Box::from_raw(arr));
+		let sum = if both_numbers { mk::jsonnet_json_make_number(vm, x + y) } else { mk::jsonnet_json_make_null(vm) };
+		md::jsonnet_json_object_append(vm, &mut *obj, c"sum".as_ptr(), &*sum);
+		jsonnet::jsonnet_json_destroy(vm, Box::from_raw(sum));
+		let flag = mk::jsonnet_json_make_bool(vm, 1);
+		md::jsonnet_json_object_append(vm, &mut *obj, c"ok".as_ptr(), &*flag);
+		jsonnet::jsonnet_json_destroy(vm, Box::from_raw(flag));
+		obj
 	}
-	let s = format!("{}|{}", a.to_string().map(|s| s.to_string()).unwrap_or_default(), b.to_string().map(|s| s.to_string()).unwrap_or_default());
-	let c = CString::new(s.replace('\0', "")).expect("cstring");
-	unsafe { jsonnet::val_make::jsonnet_json_make_string(vm, c.as_ptr()) }
 }
 
 /// The reference: the same lookup behind the Rust `ImportResolver` trait
@@ -249,14 +287,27 @@ impl jrsonnet_evaluator::function::builtin::NativeCallbackHandler for RefNative 
 		if self.fail_nth == Some(n) {
 			return Err(ErrorKind::RuntimeError(format!("sim native: injected failure on call {n}").into()).into());
 		}
-		if let (Val::Num(a), Val::Num(b)) = (&args[0], &args[1]) {
-			return Ok(Val::Num(jrsonnet_evaluator::val::NumValue::new(a.get() + b.get()).expect("finite")));
-		}
-		Ok(Val::string(format!(
-			"{}|{}",
-			args[0].to_string().map(|s| s.to_string()).unwrap_or_default(),
-			args[1].to_string().map(|s| s.to_string()).unwrap_or_default()
-		)))
+		// the same function written against the Rust API
+		let describe = |v: &Val| -> String {
+			match v {
+				Val::Str(s) => format!("s:{}", s.clone().into_flat()),
+				Val::Num(n) => format!("n:{}", n.get()),
+				Val::Bool(b) => format!("b:{b}"),
+				Val::Null => "null".to_owned(),
+				_ => "other".to_owned(),
+			}
+		};
+		let mut out = jrsonnet_evaluator::ObjValueBuilder::new();
+		out.field("args").value(Val::Arr(jrsonnet_evaluator::val::ArrValue::eager(vec![
+			Val::string(describe(&args[0]).replace('\0', "")),
+			Val::string(describe(&args[1]).replace('\0', "")),
+		])));
+		out.field("sum").value(match (&args[0], &args[1]) {
+			(Val::Num(a), Val::Num(b)) => Val::Num(jrsonnet_evaluator::val::NumValue::new(a.get() + b.get()).expect("finite")),
+			_ => Val::Null,
+		});
+		out.field("ok").value(Val::Bool(true));
+		Ok(Val::Obj(out.build()))
 	}
 }
 
@@ -679,6 +730,10 @@ fn snippets(rng: &mut Rng, has_native: Option<&str>, exts: &[String], with_impor
 	}
 	if let Some(n) = has_native {
 		fields.push(format!("nat: std.native('{n}')(1, 2)"));
+		// strings of every internal shape (literal, short and long concatenations), booleans, null, containers
+		fields.push(format!("nat3: std.native('{n}')(std.repeat('ab', 30) + std.repeat('cd', 30), 'x' + 'y')"));
+		fields.push(format!("nat4: std.native('{n}')(true, null)"));
+		fields.push(format!("nat5: std.native('{n}')({{ a: 1 }}, 'é' + std.repeat('z', 120) + std.toString(3))"));
 		if rng.chance(1, 2) {
 			fields.push(format!("nat2: std.native('{n}')('a', [1])"));
 		}
